@@ -555,11 +555,11 @@ func edgeFactsTo(pred, to *ssa.BasicBlock) []fact {
 	if i == nil || pred.Succs[0] == pred.Succs[1] {
 		return nil
 	}
-	if pred.Succs[0] == to {
-		return []fact{normFact(fact{V: i.Cond, Pol: true, If: i})}
-	}
-	if pred.Succs[1] == to {
-		return []fact{normFact(fact{V: i.Cond, Pol: false, If: i})}
+	for k := 0; k < 2; k++ {
+		if pred.Succs[k] == to {
+			f := normFact(fact{V: i.Cond, Pol: k == 0, If: i})
+			return append([]fact{f}, phiImplied(f, 0)...)
+		}
 	}
 	return nil
 }
